@@ -57,8 +57,11 @@ Module FloatInst.
     match n with O => x | S n' => sq_n n' (x * x) end.
 
   Definition fl_exp (x : float) : float :=
-    let y := x / 1024 in
-    sq_n 10 (taylor_exp 14 1 1 1 y).
+    if PrimFloat.ltb x (-746) then 0            (* below the smallest subnormal *)
+    else if PrimFloat.ltb 710 x then infinity   (* above the largest finite number *)
+    else
+      let y := x / 1024 in
+      sq_n 10 (taylor_exp 14 1 1 1 y).
 
   (* ln x = e*ln2 + 2*atanh((m-1)/(m+1)), x = m*2^e, m in [0.5,1) *)
   Fixpoint atanh_series (n : nat) (k : float) (zpow z2 acc : float) : float :=
@@ -70,10 +73,15 @@ Module FloatInst.
   Definition ln2 : float := 0x1.62e42fefa39efp-1.
 
   Definition fl_ln (x : float) : float :=
-    let (m, e) := frshiftexp x in
-    let ef := of_uint63 e - 2101 in
-    let z := (m - 1) / (m + 1) in
-    ef * ln2 + 2 * atanh_series 40 1 z (z * z) 0.
+    if (PrimFloat.ltb 0x1.6p-1 x) && (PrimFloat.ltb x 0x1.6p0) then
+      (* near 1: no exponent term, hence no cancellation *)
+      let z := (x - 1) / (x + 1) in
+      2 * atanh_series 40 1 z (z * z) 0
+    else
+      let (m, e) := frshiftexp x in
+      let ef := of_uint63 e - 2101 in
+      let z := (m - 1) / (m + 1) in
+      ef * ln2 + 2 * atanh_series 40 1 z (z * z) 0.
 
   Fixpoint pow_nat (x : float) (n : nat) : float :=
     match n with O => 1 | S n' => x * pow_nat x n' end.
@@ -85,13 +93,31 @@ Module FloatInst.
     | S b => if PrimFloat.eqb kf e then Some k else find_int b (S k) (kf + 1) e
     end.
 
+  (* [h] is an integer (for |h| < 2^51): adding and subtracting 2^52 rounds to the nearest integer *)
+  Definition is_int_small (h : float) : bool :=
+    let a := PrimFloat.abs h in
+    PrimFloat.eqb ((a + 0x1p52) - 0x1p52) a.
+
+  (* whole-valued exponents beyond the small table: libm's pow treats a negative base by parity *)
+  Definition whole (e : float) : bool :=
+    let a := PrimFloat.abs e in
+    if PrimFloat.leb 0x1p52 a then true else is_int_small a.
+
+  Definition even_whole (e : float) : bool :=
+    let a := PrimFloat.abs e in
+    if PrimFloat.leb 0x1p53 a then true else is_int_small (a / 2).
+
   Definition fl_pow (x e : float) : float :=
     match find_int 33 0 0 e with
     | Some n => pow_nat x n
     | None =>
       match find_int 33 0 0 (- e) with
       | Some n => 1 / pow_nat x n
-      | None => fl_exp (e * fl_ln x)
+      | None =>
+        if (PrimFloat.ltb x 0) && whole e then
+          let r := fl_exp (e * fl_ln (- x)) in
+          if even_whole e then r else - r
+        else fl_exp (e * fl_ln x)
       end
     end.
 
